@@ -1606,6 +1606,12 @@ class Engine:
                 env[f"arg{i}"] = a
             for k, v in bound.items():
                 env["arg_" + k] = v
+            # argN also names the N-th parameter when it is passed by keyword or left to its default
+            pnames = [p.arg for p in fn.node.args.posonlyargs + fn.node.args.args]
+            off = 0
+            for i, pn in enumerate(pnames):
+                if f"arg{i + off}" not in env and pn in bound:
+                    env[f"arg{i + off}"] = bound[pn]
             line = getattr(node, "lineno", 0)
             for nm, text in clauses.items():
                 g = self.eval_clause(st, text, env, st.module, old_state=st.entry)
